@@ -639,6 +639,35 @@ mod tm {
         }
     }
 
+    /// per table (recursively, arrays of tables element-wise): its value keys, its table keys, its array-of-tables keys,
+    /// each list in the map's iteration order
+    #[cfg(all(feature = "tm_display", feature = "tm_parse"))]
+    fn order_sig(t: &toml::Table) -> String {
+        // classes: plain values (no table inside), mixed arrays (some elements are tables: written in the second pass but
+        // spelled as an inline value), arrays of tables, tables - "values before sub-tables and arrays of tables"; the map's
+        // order is kept within each class
+        fn some_table(v: &Value) -> bool {
+            matches!(v, Value::Array(a) if a.iter().any(|x| x.is_table()))
+        }
+        fn all_tables(v: &Value) -> bool {
+            matches!(v, Value::Array(a) if !a.is_empty() && a.iter().all(|x| x.is_table()))
+        }
+        let mut vals = Vec::new();
+        let mut mixed = Vec::new();
+        let mut tabs = Vec::new();
+        let mut aots = Vec::new();
+        for (k, v) in t {
+            match v {
+                Value::Table(sub) => tabs.push(format!("{}{}", k, order_sig(sub))),
+                v if all_tables(v) => aots.push(format!("{}[{}]", k, v.as_array().unwrap().iter().map(|e| e.as_table().map(order_sig).unwrap_or_default()).collect::<Vec<_>>().join(";"))),
+                v if some_table(v) => mixed.push(k.clone()),
+                _ => vals.push(k.clone()),
+            }
+        }
+        let vals = [vals.join(","), mixed.join(",")].join("|");
+        format!("(v:{} t:{} a:{})", vals, tabs.join(","), aots.join(","))
+    }
+
     #[cfg(all(feature = "tm_display", feature = "tm_parse"))]
     pub fn value_trees(dump: &Option<(String, usize)>) {
         let mut b = Blocks::new("tm.valuetree.decoded-sorted", dump);
@@ -668,6 +697,11 @@ mod tm {
                                 }
                                 if back != t {
                                     println!("VIOL {} of a toml::Table (insertion order {:?}, kinds {:?}, depth {}) decodes to a table that compares unequal (==) to the one printed: {:?}", name, p, assign, depth, text);
+                                }
+                                // print-then-parse keeps the map's own order within each class of entries (values, tables,
+                                // arrays of tables) of every table: sorted in the default build, insertion order with preserve_order
+                                if order_sig(&back) != order_sig(&t) {
+                                    println!("VIOL {} of a toml::Table (insertion order {:?}, kinds {:?}, depth {}) does not keep the map's order of entries: built {} printed-and-reparsed {} text {:?}", name, p, assign, depth, order_sig(&t), order_sig(&back), text);
                                 }
                                 let again = match name {
                                     "to_string" => toml::to_string(&back).unwrap_or_default(),
